@@ -8,7 +8,7 @@ sys.path.insert(0, os.path.dirname(os.path.abspath(__file__)))
 import harness  # noqa: E402
 
 PROPS = ["C01", "C02", "C03", "C04", "C05", "C06", "C07", "C08", "C09", "C10", "C11", "C12", "C13",
-         "C14", "C15", "C16", "C17", "C18", "C19"]
+         "C14", "C15", "C16", "C17", "C18", "C19", "C20"]
 
 
 def main(argv):
